@@ -815,6 +815,13 @@ func genScenario(r *Rng, v6, thorough, inDomainOnly bool) (wait int, evs []srvEv
 			continue
 		}
 		port := r.Range(1, 65535)
+		if r.Chance(1, 8) {
+			// the well-known ports - the server's own among them: a relay on the same host, a
+			// client using the server port; with an address-less or unspecified sender that
+			// is the very address the scripted connection reports as its LocalAddr
+			// (0.0.0.0:67) - seeded change C14-14: "ignore datagrams from our own address"
+			port = r.Pick([]int{67, 67, 68, 546, 547})
+		}
 		for ports[port] {
 			port = r.Range(1, 65535)
 		}
